@@ -1134,6 +1134,22 @@ def m_res_and_then(dex, fn, body, st, c, args, depth):
             yield s2, err(payload), False
 
 
+def m_res_is_ok_and(dex, fn, body, st, c, args, depth):
+    for n, s2, payload in variant_fork(dex, st, args[0], *RES):
+        if n == "Ok":
+            yield from dex.call_closure(s2, args[1], [payload], depth)
+        else:
+            yield s2, FALSE, False
+
+
+def m_res_is_err_and(dex, fn, body, st, c, args, depth):
+    for n, s2, payload in variant_fork(dex, st, args[0], *RES):
+        if n == "Err":
+            yield from dex.call_closure(s2, args[1], [payload], depth)
+        else:
+            yield s2, FALSE, False
+
+
 def m_res_unwrap_or(dex, fn, body, st, c, args, depth):
     for n, s2, payload in variant_fork(dex, st, args[0], *RES):
         yield s2, (payload if n == "Ok" else args[1]), False
@@ -1243,8 +1259,10 @@ SUFFIX_MODELS = [
     ("result::Result::<T, E>::and_then", m_res_and_then),
     ("result::Result::<T, E>::unwrap_or", m_res_unwrap_or),
     ("result::Result::<T, E>::as_ref", m_identity),
-    ("bool::then", m_bool_then),
-    ("bool::then_some", m_bool_then_some),
+    ("<impl bool>::then", m_bool_then),
+    ("<impl bool>::then_some", m_bool_then_some),
+    ("result::Result::<T, E>::is_ok_and", m_res_is_ok_and),
+    ("result::Result::<T, E>::is_err_and", m_res_is_err_and),
     ("boxed::Box::<T>::new", m_identity),
     ("string::String::as_str", m_identity),
     ("str::<impl str>::as_bytes", m_identity),
